@@ -466,6 +466,20 @@ def main(argv):
         ctx.count("composed-hash-model-calls", ncalls)
         for b in bad[:5]:
             ctx.disagreement("composed Lean model HashClient∘Client differs from the real HashClient", b, theorem="C13_hash_projection")
+    # broadcasts of HashClient (Pymc/Model/HashBroadcast.lean): flush_all / quit / close (disconnect_all) walk over every registered client, also
+    # those of servers out of rotation; random histories mixing them with key-addressed calls, clock advances and servers going down / coming
+    # back on the real HashClient (result or class of the escaping exception — the ValueError of remove_node is its own class —, clients handed
+    # to _safely_run_func in order, bookkeeping state with failed / dead dicts, sockets of every registered client)
+    if ctx.lean.build_ok:
+        import hashbroadcast_diff
+        ncalls, bad = hashbroadcast_diff.differential(3000 if ctx.thorough else 500, rng, ctx.driver.batch)
+        ctx.count("composed-hash-broadcast-model-calls", ncalls)
+        for k, v in hashbroadcast_diff.STATS.items():
+            if k.startswith("broadcast"):
+                ctx.count("hash-" + k, v)
+        for b in bad[:5]:
+            ctx.disagreement("composed Lean model HashClient∘Client with broadcasts (flush_all / quit / close) differs from the real HashClient", b,
+                             theorem="C13_hash_broadcast_bookkeeping_error_iff")
     # composed model HashClient ∘ PooledClient ∘ Client (Pymc/Model/HashPooledCall.lean): the same on the real HashClient(use_pooling=True)
     # (result, server, PooledClient invoked, inner client, socket used, bookkeeping state, every registered pool)
     if ctx.lean.build_ok:
